@@ -128,9 +128,39 @@ func TestVerifC08(t *testing.T) {
 		var pre []vReadRec
 		var preSegs []vSegInfo
 		var hw int64 = -1
+		// what the log holds right now, as the last full forward read-back saw it (invalidated by
+		// every op that changes the log): the reference for reverse reads
+		var cur []vReadRec
+		curOK := false
 		for i, op := range prog {
 			if impl[i] == "panic" && fail == "" {
 				fail, tag = fmt.Sprintf("op %d (%s) panics", i, op), "compact-panic"
+			}
+			switch f0 := strings.Fields(op)[0]; {
+			case op == "read 0 u":
+				cur, curOK = vParseRead(impl[i])
+			case f0 == "read" || f0 == "revread" || f0 == "lastoff":
+			default:
+				curOK = false
+			}
+			if f := strings.Fields(op); f[0] == "revread" && curOK && fail == "" {
+				// a committed reverse reader from s (or from the HW when s is -1 or beyond it) delivers
+				// exactly the retained messages at or below that offset, newest first
+				s, _ := strconv.ParseInt(f[1], 10, 64)
+				eff := s
+				if s == -1 || s > hw {
+					eff = hw
+				}
+				var want []string
+				for k := len(cur) - 1; k >= 0; k-- {
+					if cur[k].off <= eff {
+						p := strings.Split(cur[k].text, ":")
+						want = append(want, strings.Join([]string{p[0], p[1], p[3], p[4]}, ":"))
+					}
+				}
+				if hw >= 0 && len(want) > 0 && impl[i] != "ok "+strings.Join(want, " ") {
+					fail, tag = fmt.Sprintf("op %d (%s, hw %d): got %q want %q", i, op, hw, impl[i], "ok "+strings.Join(want, " ")), "compact-reverse-read-mismatch"
+				}
 			}
 			if strings.Contains(impl[i], "segs=") && !strings.HasPrefix(op, "clean ") {
 				preSegs = vParseSegs(impl[i])
@@ -269,6 +299,10 @@ func TestVerifC08(t *testing.T) {
 				if s <= hw {
 					prog = append(prog, fmt.Sprintf("read %d c", s))
 				}
+			}
+			prog = append(prog, "read 0 u", "revread -1")
+			for s := int64(0); s < next; s++ {
+				prog = append(prog, fmt.Sprintf("revread %d", s))
 			}
 			if rnd.Intn(4) == 0 {
 				prog = append(prog, "reopen", "read 0 u")
